@@ -33,8 +33,8 @@ type scnNode struct {
 	Cap     int
 	Dir     string // "out": the service dials the node; "in": the node dials the service
 	Honest  bool
-	CloseAt int // close the connection instead of answering the k-th getheaders (0-based); -1 = never
-	StallAt int // stop answering from the k-th getheaders on; -1 = never
+	CloseAt int  // close the connection instead of answering the k-th getheaders (0-based); -1 = never
+	StallAt int  // stop answering from the k-th getheaders on; -1 = never
 	NoStop  bool // ignores the stop hash (misbehaving nodes only)
 }
 
